@@ -30,6 +30,7 @@ use crate::info::HasConnectionInfo;
 
 use crate::client::conn::connection::Connection;
 use crate::client::conn::connection::ConnectionError;
+use crate::client::conn::connection::UriError;
 use crate::client::Error as ClientError;
 use crate::service::ExecuteRequest;
 use crate::BoxError;
@@ -464,6 +465,13 @@ where
 
     fn call(&mut self, req: http::Request<BIn>) -> Self::Future {
         let (parts, body) = req.into_parts();
+
+        if parts.uri.scheme().is_none() {
+            // Without a scheme and authority there is nothing to connect to.
+            return self::future::ResponseFuture::error(ConnectionError::InvalidUri(
+                UriError::MissingScheme(parts.uri.clone()),
+            ));
+        }
 
         let Some(version) = HttpProtocol::for_version(parts.version) else {
             return self::future::ResponseFuture::error(ConnectionError::UnsupportedVersion(
